@@ -9,8 +9,12 @@ UNITS = [dict(
     budget={'quick': 285, 'thorough': 3000},
     validate=[],
 )]
+import copy as _copy
+_u = _copy.deepcopy(UNITS[0]); _u['name'] = 'sync4'; _u['entries'] = ['monitor2']
+_u['opts'] = {'quick': dict(UNITS[0]['opts']['quick'], preempt=0), 'thorough': dict(UNITS[0]['opts']['thorough'], preempt=1)}
+UNITS.append(_u)      # four threads: every choice of the next thread at blocking points, no (thorough: one) preemption
 BOUNDS = {
-    'quick': 'Mutex: 3 threads (two lock/unlock, one of them re-entrantly, one tryLock) + main; Semaphore: initial value 0..1, two waiters (wait / tryWait / timed wait) and one or two signals; Signal: initially set or not, two waiters (untimed / timed), one setter, then reset; Signal pulse: one or two threads blocked in wait(), then set(); reset() at once (all of them must return); Thread: start, refused second start, join result, restart after join; Monitor: 0..2 set() calls left pending, one waiter (untimed / timed) and one setter that sets after the waiter took the monitor; every interleaving with <= 2 preemptions at pthread calls and atomic accesses, spurious condition wake-ups and time-outs injected by the scheduler; deadline arithmetic of the three timed waits for every timeout in [0, 2^30) ms (one symbolic value, decided by the solver)',
+    'quick': 'Mutex: 3 threads (two lock/unlock, one of them re-entrantly, one tryLock) + main; Semaphore: initial value 0..1, two waiters (wait / tryWait / timed wait) and one or two signals; Signal: initially set or not, two waiters (untimed / timed), one setter, then reset; Signal pulse: one or two threads blocked in wait(), then set(); reset() at once (all of them must return); Monitor with two waiters and two set() calls after both wait (4 threads, no preemption; thorough: 1); Thread: start, refused second start, join result, restart after join; Monitor: 0..2 set() calls left pending, one waiter (untimed / timed) and one setter that sets after the waiter took the monitor; every interleaving with <= 2 preemptions at pthread calls and atomic accesses, spurious condition wake-ups and time-outs injected by the scheduler; deadline arithmetic of the three timed waits for every timeout in [0, 2^30) ms (one symbolic value, decided by the solver)',
     'thorough': '2 lock/unlock rounds per thread, <= 3 preemptions',
 }
 OUTSIDE = 'glibc / kernel behaviour (pthreads are a model written from POSIX: mutex with owner and recursion count honouring the attribute type, condition variable with waiter set, semaphore counter, thread create/join), weak memory, more than 4 threads'
